@@ -9,14 +9,18 @@ area = "reply"
 driver = "drv_reply"
 cxx = False
 fixed_lines = 2
-rule = ("two kinds of scripts. ids: 'r id2buf <id> <w>' followed by 'r buf2id <big-endian bytes of id>' for every id in "
+rule = ("three kinds of scripts. stream: 's open <idlen>' (mpt_stream_input on a socketpair, the driver is the peer), then for 7 "
+        "kinds of id header (zero, 1, 7fff.., reply-marked, ff.., 0100.., too short) a request frame handled by a scripted handler "
+        "running EVERY act list up to length 3 over {reply:4142, reply:-, replynull, defer, ret:0, ret:-4, ret:5}, header widths "
+        "0,1,2,3,8,9, plus 300-byte payloads and width 255/256; connection: the same requests through mpt_connection_dispatch on a "
+        "stream-backed connection ('c open/req/dreply/close'), deferred handles answered or dropped afterwards and after close; ids: 'r id2buf <id> <w>' followed by 'r buf2id <big-endian bytes of id>' for every id in "
         "{0,1,127,128,255,256, 2^k-1, 2^k, 2^k+1 for k = 15,16,23,24,31,32,39,40,47,48,55,56,63, 2^64-1} and seeded random "
         "ids x every width 0..9 (+ 16, 300), and buf2id on byte strings with leading zeros / 9-10 significant bytes; "
         "histories: 'r send <schedule>', 'r ctx <w>' then EVERY sequence of length <= 5 that starts with an arm (all sequences up to length 2; thorough: length 6 with the first two schedules) over "
         "{arm A, arm B, reply m, reply none, defer, dreply 0 m, dreply 1 m, drop 0, drop 1, drop ctx} x 4 transport schedules "
         "(all ok; first fails; second fails; all fail), closed by 'drop 0, drop 1, drop ctx'; plus seeded random histories of "
         "length 6..14 with header widths 0..9, over-long ids, contexts without transport pointer and malformed ops. "
-        "non-trivial = an id script whose id needs the top bit or more than one byte (id >= 128), or a history in which the "
+        "non-trivial = a stream/connection request with a reply context whose handler replied more than once or not at all, or a reply through a deferred handle of a connection; an id script whose id needs the top bit or more than one byte (id >= 128), or a history in which the "
         "transport was called and a later answer attempt was refused / made no call, or a send was rejected; counted per "
         "distinct script")
 assumptions = [
@@ -70,6 +74,38 @@ def scripts(tier, seed, scale=1):
                 continue
             for si, sch in enumerate(SCHEDS if ln <= 5 else SCHEDS[:2]):
                 out.append(("h:%s/%d" % ("".join("%x" % k for k in seq), si), [sch, "r ctx 2"] + [OPS[k] for k in seq] + CLOSE))
+    # stream-input variant over a socketpair: every act list up to length 3 x id kinds x header widths
+    ACTS = ["reply:4142", "reply:-", "replynull", "defer", "ret:0", "ret:-4", "ret:5"]
+    def ids(w):
+        if w == 0:
+            return ["", "61"]
+        z = [0] * w
+        out = [z, z[:-1] + [1], [0x7f] + [0xff] * (w - 1), [0x80] + z[1:-1] + ([9] if w > 1 else []), [0xff] * w, [1] + z[1:]]
+        return [gen.hexs(x) if x else "" for x in out] + [gen.hexs(z[:-1])[:2 * (w - 1)]]      # last: header too short
+    for w in (0, 1, 2, 3, 8, 9):
+        for n in (1, 2, 3) if tier == "quick" else (1, 2, 3, 4):
+            for seq in itertools.product(ACTS, repeat=n):
+                if n >= 3 and w not in (2, 9):
+                    continue
+                lines = ["s open %d" % w]
+                for k, idh in enumerate(ids(w)):
+                    lines.append("s req %s %s" % ((idh + ["7a", "", "6100", "00"][k % 4]) or "-", ",".join(seq)))
+                lines.append("s close")
+                out.append(("s:%d/%s" % (w, "+".join(a.replace(":", "") for a in seq)), lines))
+    # stream-backed connection (connection_dispatch.c on the deferrable context): same requests, deferred handles
+    # answered / dropped afterwards, also after the connection is closed
+    for w in (0, 1, 2, 9):
+        for n in (1, 2, 3):
+            for seq in itertools.product(ACTS, repeat=n):
+                if n >= 3 and w != 2:
+                    continue
+                lines = ["c open %d" % w]
+                for k, idh in enumerate(ids(w)):
+                    lines.append("c req %s %s" % ((idh + ["7a", "", "6100", "00"][k % 4]) or "-", ",".join(seq)))
+                lines += ["c dreply 0 4444", "c dreply 0 none", "c dreply 1 none", "c dreply 2 -", "c close", "c dreply 3 46", "c dreply 4 none", "c req 0001 ret:0"]
+                out.append(("c:%d/%s" % (w, "+".join(a.replace(":", "") for a in seq)), lines))
+    out.append(("s:long", ["s open 2", "s req 0007" + "61" * 300 + " reply:" + "62" * 300, "s req 0008" + "00" * 40 + " ret:-1", "s close",
+                           "s open 256", "s open 255", "s req " + "01" * 255 + "63 replynull,replynull", "s close", "s close", "s req 00 ret:0"]))
     # random histories
     r = gen.rng(id, tier, seed, "random")
     nrand = (600 if tier == "quick" else 8000) * scale
@@ -118,6 +154,13 @@ def nontrivial(script, c_lines):
             continue
         if w[1] == "id2buf" and len(w) == 4 and w[2].isdigit() and int(w[2]) >= 128:
             return True
+        if w[0] == "c" and w[1] == "dreply" and "frame[" in ln:
+            return True
+        if w[0] in ("s", "c"):
+            # a request with a reply context that was answered by default or saw a refused second attempt
+            if w[1] == "req" and "ctx=1" in ln and ("refused" in ln or "acts=ret" in ln.replace("nodefer,", "") or "ok" not in _run.sections(ln).get("R", "")):
+                return True
+            continue
         sec = _run.sections(ln)
         c = sec.get("C", "-")
         if "->fail" in c:
